@@ -266,20 +266,27 @@ static void check_b64_decode(const std::string &text, uint64_t capmode, const st
     bool is_short = ref.len_ok && cap < ref.predicted;
     if (must_be) PBT_CHECK(ref.accept && ref.out == *must_be, "harness: reference decoder does not invert the reference encoder");
     In in(text);
-    Res first[2];
+    Res first[2], pred[2];
     for (int i = 0; i < 2; i++) {
         const Impl &im = IMPLS[i];
         struct aws_byte_cursor cur = aws_byte_cursor_from_array(in.p, in.n);
         size_t dl = 0xDEADBEEF;
         aws_reset_error();
         int lrc = im.b64_dec_len(&cur, &dl);
+        int lerr = lrc ? aws_last_error() : 0;
         if (!ref.len_ok) {
-            PBT_CHECK(lrc == AWS_OP_ERR && aws_last_error() == AWS_ERROR_INVALID_BASE64_STR,
-                      "%s base64_compute_decoded_len(len %zu, not a multiple of 4): rc %d err %d", im.name, n, lrc, aws_last_error());
-        } else {
+            PBT_CHECK(lrc == AWS_OP_ERR && lerr == AWS_ERROR_INVALID_BASE64_STR,
+                      "%s base64_compute_decoded_len(len %zu, not a multiple of 4): rc %d err %d", im.name, n, lrc, lerr);
+        } else if (ref.accept) {
             PBT_CHECK(lrc == AWS_OP_SUCCESS && dl == ref.predicted, "%s base64_compute_decoded_len(\"%s\"): rc %d value %zu, expected %zu",
                       im.name, show(text).c_str(), lrc, dl, ref.predicted);
+        } else { // malformed text: nothing will be produced, so any prediction (or a refusal) is acceptable - but the same on both builds
+            PBT_CHECK(lrc == AWS_OP_SUCCESS || lerr == AWS_ERROR_INVALID_BASE64_STR, "%s base64_compute_decoded_len(\"%s\"): rc %d err %d", im.name,
+                      show(text).c_str(), lrc, lerr);
         }
+        pred[i].rc = lrc;
+        pred[i].err = lerr;
+        pred[i].len = lrc ? 0 : dl;
         Res r[2];
         for (int f = 0; f < 2; f++) r[f] = call("base64_decode", im, im.b64_dec, in, cap, 0, FILLS[f]);
         fill_independence("base64_decode", im, r[0], r[1], 0);
@@ -304,10 +311,12 @@ static void check_b64_decode(const std::string &text, uint64_t capmode, const st
         } else {
             PBT_CHECK(a.rc == AWS_OP_ERR, "%s base64_decode accepted \"%s\", which is not well-formed base64 (reported len %zu)", im.name,
                       show(text).c_str(), a.len);
-            PBT_CHECK(a.err == AWS_ERROR_INVALID_BASE64_STR, "%s base64_decode(\"%s\") raised %d, expected INVALID_BASE64_STR", im.name,
-                      show(text).c_str(), a.err);
+            bool own_prediction_short = lrc == AWS_OP_SUCCESS && dl > cap;
+            PBT_CHECK(a.err == AWS_ERROR_INVALID_BASE64_STR || (own_prediction_short && a.err == AWS_ERROR_SHORT_BUFFER),
+                      "%s base64_decode(\"%s\") raised %d, expected INVALID_BASE64_STR", im.name, show(text).c_str(), a.err);
         }
     }
+    same_on_both_paths(("base64_compute_decoded_len(\"" + show(text) + "\")").c_str(), pred[0], pred[1]);
     same_on_both_paths(("base64_decode(\"" + show(text) + "\")").c_str(), first[0], first[1]);
 }
 
